@@ -80,3 +80,7 @@ func vcheckEqInt(l string, x, k int) { vcheck(l, x == k) }
 // vclockbound: assumption on the environment clock — all later readings of the
 // (symbolic, non-decreasing) clock stay within d nanoseconds of the next reading.
 func vclockbound(d uint64) {}
+
+// vreps: how often a run-to-run comparison is repeated natively (Go randomises map
+// iteration per range statement); the engine explores iteration orders itself and uses 1.
+func vreps() int { return 48 }
